@@ -378,13 +378,14 @@ public:
 		Map < String, T>(b) {}
 	void operator=(std::initializer_list< KV > b)
 	{
-		this->clear();
-		this->reserve((int)b.size());
+		Dic t; // built apart: keys and values of b may belong to this map
+		t.reserve((int)b.size());
 		for (int i = 0; i < (int)b.size(); i++)
 		{
 			const KV& kv = b.begin()[i];
-			(*this)[kv.key] = kv.value;
+			t[kv.key] = kv.value;
 		}
+		this->a = t.a;
 	}
 #endif
 
